@@ -16,7 +16,10 @@ RULE = ("view trees drawn from one PRNG (VERIF_SEED) over the grammar text (incl
         "static element, depth <= 4, nested so that the HTML content model allows it (nothing that closes an open "
         "<p> inside a <p>); ~3% deliberately mis-nested views (kind invalid-nesting: compared with the model, the "
         "oracle does not demand success). Every case carries a second view (a mutation of the first or a fresh one) "
-        "for the post-hydration rebuild; every tenth view is also rendered through to_html_stream_in_order / "
+        "for the post-hydration rebuild; oracle-only kinds: hydrate-extra (EitherKeepAlive with rebuilds {None, None, "
+        "show_b}, EitherOf3, Result Ok/Err, StaticVec, [T; 2], Arc<str>/Cow<str>, OwnedView), streamed (in-order / "
+        "out-of-order streams with Suspends pending at render time, template+script swap emulated), resolved "
+        "(view.resolve().await.to_html() with futures completing in a chosen order); every tenth view is also rendered through to_html_stream_in_order / "
         "_out_of_order (kind streamed-forms) and the concatenated chunks compared with to_html(). A case is non-trivial when its DOM has at least 3 nodes and the walk has to "
         "consume at least one marker/separator comment or descend into an element; distinct = distinct case hash.")
 TRUSTED = [
@@ -177,6 +180,92 @@ def add_suspends(rng, v, ids, p_pending, depth=0):
     return v
 
 
+# ------------------------------------------------------------------ further combinators (oracle-only)
+# (16 a b show) EitherKeepAlive{Some(a), Some(b), show} | (17 show) EitherKeepAlive{None, None, show} (rebuilds only)
+# (18 i v) EitherOf3 | (19 1 v)/(19 0) Result Ok/Err | (20 vs) StaticVec | (21 a b) [T; 2] | (22 k bytes) Arc<str>/Cow<str>
+# (23 v) OwnedView
+def xkids(v):
+    """the sub-views of any view (for the walks that do not care about the kind)"""
+    op = v[0]
+    if op == 2:
+        return v[3]
+    if op in (4, 9, 11, 20):
+        return v[1]
+    if op in (5, 7, 8, 10, 23):
+        return [v[1]]
+    if op == 14:
+        return [v[3]]
+    if op == 16:
+        return [v[1], v[2]]
+    if op == 18:
+        return [v[2]]
+    if op == 19:
+        return [v[2]] if v[1] else []
+    if op == 21:
+        return [v[1], v[2]]
+    return []
+
+
+def add_extras(rng, v, depth=0):
+    op = v[0]
+    if op == 2:
+        v = [2, v[1], v[2], [add_extras(rng, k, depth + 1) for k in v[3]]]
+    elif op in (4, 9):
+        v = [op, [add_extras(rng, k, depth + 1) for k in v[1]]]
+    elif op in (5, 7, 8, 10):
+        v = [op, add_extras(rng, v[1], depth + 1)]
+    if op in (11, 12, 15) or rng.random() > 0.3:
+        return v
+    r = rng.random()
+    other = rng.choice([[0, b(gen_text(rng))], [1], [2, 1, [], [[0, b("f")]]], [4, [[0, b("x")], [0, b("y")]]]])
+    if r < 0.3:
+        return [16, v, other, 0] if rng.random() < 0.6 else [16, other, v, 1]
+    if r < 0.42:
+        return [18, rng.randrange(3), v]
+    if r < 0.55:
+        return [19, 1, v] if rng.random() < 0.75 else [19, 0]
+    if r < 0.67:
+        return [20, [v] + ([other] if rng.random() < 0.5 else [])]
+    if r < 0.78:
+        return [21, v, other]
+    if r < 0.9:
+        return [23, v]
+    return [22, rng.randrange(2), b(gen_text(rng))]
+
+
+def flip_extras(rng, v):
+    """the second view of an extra case: every EitherKeepAlive is rebuilt with {a: None, b: None, show_b}, Results
+    may change side, texts change"""
+    op = v[0]
+    if op == 16:
+        return [17, (1 - v[3]) if rng.random() < 0.7 else v[3]]
+    if op == 19:
+        return [19, 0] if (v[1] and rng.random() < 0.3) else ([19, 1, flip_extras(rng, v[2])] if v[1] else [19, 1, [0, b("ok")]])
+    if op == 22:
+        return [22, v[1], b(gen_text(rng))]
+    if op == 0:
+        return [0, b(gen_text(rng))] if rng.random() < 0.5 else v
+    if op == 2:
+        return [2, v[1], v[2], [flip_extras(rng, k) for k in v[3]]]
+    if op in (4, 9, 20):
+        return [op, [flip_extras(rng, k) for k in v[1]]]
+    if op in (5, 7, 8, 10, 23):
+        return [op, flip_extras(rng, v[1])]
+    if op == 18:
+        return [18, v[1], flip_extras(rng, v[2])]
+    if op == 21:
+        return [21, flip_extras(rng, v[1]), flip_extras(rng, v[2])]
+    return v
+
+
+def has17(v):
+    return v[0] == 17 or any(has17(k) for k in xkids(v))
+
+
+def has_extra(v):
+    return v[0] in (16, 17, 18, 19, 20, 21, 22, 23) or any(has_extra(k) for k in xkids(v))
+
+
 def strip_suspends(v):
     op = v[0]
     if op == 14:
@@ -254,6 +343,8 @@ def content_ok(v, in_p=False):
         return content_ok(v[3], in_p)
     if op == 12:
         return inert_content_ok(v[1], in_p)
+    if op in (16, 18, 19, 20, 21, 23):
+        return all(content_ok(k, in_p) for k in xkids(v))
     return True
 
 
@@ -306,6 +397,8 @@ def has_raw(v):
     op = v[0]
     if op == 15:
         return True
+    if op in (16, 18, 19, 20, 21, 23):
+        return any(has_raw(k) for k in xkids(v))
     if op == 2:
         return any(has_raw(k) for k in v[3])
     if op in (4, 9, 11):
@@ -321,6 +414,8 @@ def suspend_ids(v):
     op = v[0]
     if op == 14:
         return [v[1]] + suspend_ids(v[3])
+    if op in (16, 18, 19, 20, 21, 23):
+        return [i for k in xkids(v) for i in suspend_ids(k)]
     if op == 2:
         return [i for k in v[3] for i in suspend_ids(k)]
     if op in (4, 9, 11):
@@ -334,6 +429,8 @@ def pending_ids(v):
     op = v[0]
     if op == 14:
         return ([v[1]] if v[2] else []) + pending_ids(v[3])
+    if op in (16, 18, 19, 20, 21, 23):
+        return [i for k in xkids(v) for i in pending_ids(k)]
     if op == 2:
         return [i for k in v[3] for i in pending_ids(k)]
     if op in (4, 9, 11):
@@ -444,6 +541,23 @@ def shape_ok(v):
             return inert_shape_ok(v[1], top=True)
         if op == 14:
             return len(v) == 4 and v[2] in (0, 1) and shape_ok(v[3])
+        if op == 16:
+            return len(v) == 4 and v[3] in (0, 1) and shape_ok(v[1]) and shape_ok(v[2])
+        if op == 17:
+            return len(v) == 2 and v[1] in (0, 1)
+        if op == 18:
+            return len(v) == 3 and v[1] in (0, 1, 2) and shape_ok(v[2])
+        if op == 19:
+            return (len(v) == 3 and v[1] == 1 and shape_ok(v[2])) or v == [19, 0]
+        if op == 20:
+            return all(shape_ok(k) for k in v[1])
+        if op == 21:
+            return len(v) == 3 and shape_ok(v[1]) and shape_ok(v[2])
+        if op == 22:
+            bytes(v[2]).decode("utf-8")
+            return v[1] in (0, 1) and 0 not in v[2] and 13 not in v[2]
+        if op == 23:
+            return shape_ok(v[1])
         if op == 15:
             if not (0 <= v[1] < 3 and attrs_ok(v[2])):
                 return False
@@ -505,6 +619,15 @@ def inert_shape_ok(d, top=False):
 
 def valid_case(item):
     c = item["case"]
+    if item.get("kind") == "hydrate-extra":
+        return (isinstance(c, list) and len(c) == 4 and c[0] == 0 and c[3] in (0, 1) and shape_ok(c[1]) and shape_ok(c[2])
+                and content_ok(c[1]) and not has_raw(c[1]) and not has17(c[1]))
+    if item.get("kind") == "resolved":
+        if not (isinstance(c, list) and len(c) == 4 and c[0] == 3 and shape_ok(c[1])):
+            return False
+        all_ids = suspend_ids(c[1])
+        return (bool(pending_ids(c[1])) and len(set(all_ids)) == len(all_ids) and not has_raw(c[1]) and content_ok(c[1])
+                and not has17(c[1]) and all(isinstance(i, int) for i in c[2] + c[3]))
     if item.get("kind") == "streamed":
         if not (isinstance(c, list) and len(c) == 5 and c[0] == 2 and c[1] in (1, 2) and shape_ok(c[2])):
             return False
@@ -544,6 +667,18 @@ def generate(rng, tier):
             yield dict(case=[1, strip_suspends(v)], kind="streamed-forms", compare=True)
         if i % 5 == 0:
             yield gen_streamed(rng)
+        if i % 6 == 1:
+            yield gen_resolved(rng)
+        if i % 4 == 2:
+            while True:
+                x = add_extras(rng, gen_view(rng, rng.choice([1, 2, 2, 3])))
+                if has_extra(x) and content_ok(x) and not has_raw(x):
+                    break
+            if rng.random() < 0.5:
+                x = [2, rng.choice([0, 3, 5]), gen_attrs(rng), [x, gen_view(rng, 1)]]
+                if has_raw(x) or not content_ok(x):
+                    x = x[3][0]
+            yield dict(case=[0, x, flip_extras(rng, x), rng.randint(0, 1)], kind="hydrate-extra", compare=False)
 
 
 def gen_streamed(rng):
@@ -571,10 +706,52 @@ def gen_streamed(rng):
     return dict(case=[2, rng.choice([1, 2]), v, early, order], kind="streamed", compare=False)
 
 
+def gen_resolved(rng):
+    """the third server form: view.resolve().await.to_html(), with Suspends (also as list items) whose futures
+    complete in a chosen order"""
+    while True:
+        if rng.random() < 0.4:
+            items = [[14, i + 1, 1, rng.choice([[0, b(gen_text(rng) or "t")], [2, 1, [], [[0, b(str(i))]]], [13, i]])]
+                     for i in range(rng.randint(2, 4))]
+            v = [rng.choice([9, 9, 20]), items]
+            if rng.random() < 0.5:
+                v = [2, rng.choice([0, 4]), [], [v, [0, b("after")]]]
+        else:
+            base = gen_view(rng, rng.choice([1, 2, 2, 3]))
+            if rng.random() < 0.3:
+                base = add_extras(rng, base)
+            v = add_suspends(rng, base, [], 0.75)
+        ids = pending_ids(v)
+        if ids and not has_raw(v) and content_ok(v) and shape_ok(v):
+            break
+    order = list(ids)
+    rng.shuffle(order)
+    if rng.random() < 0.4:
+        order.reverse()
+    early = [i for i in ids if rng.random() < 0.2]
+    return dict(case=[3, v, early, order], kind="resolved", compare=False)
+
+
 def oracle(item, impl):
     if isinstance(impl, str):
         return "harness error / panic outside hydrate: " + impl[:200]
-    if item.get("kind") == "streamed":
+    if item.get("kind") == "hydrate-extra":
+        if len(impl) == 3 and impl[2] == [0]:
+            return "hydration failed: a node of the expected kind was not found where the walk looked for it"
+        if len(impl) < 6:
+            return "malformed observation"
+        if impl[2][0] != 1:
+            return "hydration failed"
+        if impl[3] != 1:
+            return "hydrate created, removed or replaced DOM nodes"
+        if impl[5] != 1:
+            return "hydrated DOM differs from the client-built DOM (marker comments aside)"
+        if len(impl) >= 8 and impl[6] != 1:
+            return "after a same-shape rebuild the hydrated tree differs from the client-built twin (or the rebuild failed on it only)"
+        if len(impl) >= 8 and impl[7] != 1:
+            return "after rebuilding with the second view the hydrated tree differs from the client-built twin (or the rebuild failed on it only)"
+        return None
+    if item.get("kind") in ("streamed", "resolved"):
         if len(impl) == 3 and impl[2] == [0]:
             return "hydration of the streamed markup failed: a node of the expected kind was not found where the walk looked for it"
         if len(impl) != 5:
@@ -622,7 +799,7 @@ def oracle(item, impl):
 
 
 def nontrivial(item, model):
-    if item.get("kind") == "streamed":
+    if item.get("kind") in ("streamed", "resolved", "hydrate-extra"):
         return True
     if isinstance(model, str) or len(model) < 3 or item.get("kind") == "streamed-forms":
         return False
@@ -683,6 +860,22 @@ def _show(v):
         return "inert(%s)" % _show_dom(v[1])
     if op == 14:
         return "Suspend#%d%s(%s)" % (v[1], "[pending]" if v[2] else "", _show(v[3]))
+    if op == 16:
+        return "KeepAlive{a: %s, b: %s, show_b: %d}" % (_show(v[1]), _show(v[2]), v[3])
+    if op == 17:
+        return "KeepAlive{a: None, b: None, show_b: %d}" % v[1]
+    if op == 18:
+        return "EitherOf3::%s(%s)" % ("ABC"[v[1]], _show(v[2]))
+    if op == 19:
+        return "Ok(%s)" % _show(v[2]) if v[1] else "Err(..)"
+    if op == 20:
+        return "StaticVec[" + ", ".join(_show(k) for k in v[1]) + "]"
+    if op == 21:
+        return "[%s, %s]" % (_show(v[1]), _show(v[2]))
+    if op == 22:
+        return "%s(%r)" % (["Arc<str>", "Cow<str>"][v[1]], C.show_bytes(v[2]))
+    if op == 23:
+        return "Owned(%s)" % _show(v[1])
     if op == 15:
         return "<%s>[%s]" % (RAWS[v[1]], ", ".join(repr(C.show_bytes(x[1])) if x[0] == 1 else ["()", "None", "vec![]"][x[1]] for x in v[3]))
     return "?"
@@ -700,6 +893,8 @@ def describe(it):
     c = it["case"]
     if c[0] == 1:
         return "streamed forms of %s" % _show(c[1])
+    if c[0] == 3:
+        return "resolve() of %s ; futures completed early %r then %r ; then to_html, hydrate" % (_show(c[1]), c[2], c[3])
     if c[0] == 2:
         return "%s stream of %s ; futures completed early %r then %r ; then hydrate" % (
             "in-order" if c[1] == 1 else "out-of-order", _show(c[2]), c[3], c[4])
